@@ -85,7 +85,7 @@ def apply(tree, site):
         if isinstance(v, int):
             node.value = v + 1 if variant == 0 else v - 1
         else:
-            node.value = v * (1 + 1e-3) if variant == 0 else v * (1 - 1e-3) if v else 1e-9
+            node.value = (v * (1 + 1e-3) if variant == 0 else v * (1 - 1e-3)) if v else (1e-9 if variant == 0 else -1e-9)
         desc = f"const {v!r} -> {node.value!r}"
     elif kind == "bool":
         node.op = ast.Or() if isinstance(node.op, ast.And) else ast.And()
